@@ -357,4 +357,336 @@ theorem signAll_ok {ext : Externals} {bundle : Bundle} {keys : List Key} {pol : 
         simp only [List.any_eq_true, decide_eq_true_eq]
         exact ⟨a, ha, hab.trans hid⟩
 
+/-! ### one slot -/
+
+theorem sameSet_iff (a b : List Nat) : sameSet a b = true ↔ ∀ x, x ∈ a ↔ x ∈ b := by
+  simp only [sameSet, Bool.and_eq_true, List.all_eq_true, List.contains_iff_mem]
+  constructor
+  · rintro ⟨h1, h2⟩ x; exact ⟨h1 x, h2 x⟩
+  · intro h; exact ⟨fun x hx => (h x).mp hx, fun x hx => (h x).mpr hx⟩
+
+/-- the key set `sign_bundles` assembles for one slot, from the fetched keys -/
+def slotFold (ttl : Int) (P R S Z : List Key) : List Key :=
+  Z.foldl (fun acc k => ktsAdd ttl acc k)
+    (S.foldl (fun acc k => ktsAdd ttl acc k)
+      (R.foldl (fun acc k => ktsUpdate ttl acc k)
+        (P.foldl (fun acc k => ktsAdd ttl acc k) [])))
+
+/-- the tail of `signBundle` after the signatures are made -/
+def finishBundle (ext : Externals) (cfg : SignerConfig) (bundle : Bundle) (keys : List Key)
+    (sigs : List Signature) : Res Bundle :=
+  if !sameSet (bundle.keys.map (·.algorithm)) (sigs.map (·.algorithm)) then err .createSignature
+  else
+    let rb : Bundle := { id := bundle.id, inception := bundle.inception, expiration := bundle.expiration,
+                         keys := keys, signatures := sigs }
+    match checkValidSignatures ext.verify rb cfg.responsePolicy with
+    | .ok _ => .ok rb
+    | .error e => .error e
+
+/-- `signBundle` as a composition of its steps (pure restatement of the definition) -/
+theorem signBundle_eq (ext : Externals) (mods : List P11Module) (cfg : SignerConfig) (slot : Nat)
+    (bundle : Bundle) (act : SchemaAction) (hact : cfg.actions.lookup slot = some act) :
+    signBundle ext mods cfg slot bundle =
+      (fetchKeys ext mods cfg bundle true act.publish >>= fun pub =>
+       fetchKeys ext mods cfg bundle true act.revoke >>= fun rev =>
+       TokM.lift (rev.mapM (fun ck => ck.dns.asRevoked)) >>= fun revoked =>
+       fetchKeys ext mods cfg bundle false act.sign >>= fun signing =>
+       signAll ext bundle (slotFold cfg.kskPolicy.ttl (pub.map (·.dns)) revoked (signing.map (·.dns)) bundle.keys)
+          cfg.kskPolicy signing [] >>= fun sigs =>
+       TokM.lift (finishBundle ext cfg bundle
+          (slotFold cfg.kskPolicy.ttl (pub.map (·.dns)) revoked (signing.map (·.dns)) bundle.keys) sigs)) := by
+  unfold signBundle
+  simp only [hact]
+  congr 1; funext pub
+  congr 1; funext rev
+  congr 1; funext revoked
+  congr 1; funext signing
+  simp only [foldl_map_dns, slotFold]
+  congr 1; funext sigs
+  funext t s
+  unfold finishBundle
+  by_cases hs : sameSet (bundle.keys.map (·.algorithm)) (sigs.map (·.algorithm)) = true
+  · simp only [hs, Bool.not_true, Bool.false_eq_true, ↓reduceIte, TokM.lift_run]
+    rw [TokM.bind_eq]
+    simp only [TokM.lift_run]
+    split <;> rename_i h1 <;> split <;> rename_i h2 <;> simp_all
+  · simp only [hs, Bool.not_false, ↓reduceIte, TokM.err_bind_run, TokM.lift_run, err]
+
+theorem finishBundle_ok {ext : Externals} {cfg : SignerConfig} {bundle : Bundle} {keys : List Key}
+    {sigs : List Signature} {rb : Bundle} (h : finishBundle ext cfg bundle keys sigs = .ok rb) :
+    sameSet (bundle.keys.map (·.algorithm)) (sigs.map (·.algorithm)) = true ∧
+    rb = { id := bundle.id, inception := bundle.inception, expiration := bundle.expiration,
+           keys := keys, signatures := sigs } ∧
+    checkValidSignatures ext.verify rb cfg.responsePolicy = .ok () := by
+  unfold finishBundle at h
+  by_cases hs : sameSet (bundle.keys.map (·.algorithm)) (sigs.map (·.algorithm)) = true
+  · simp only [hs, Bool.not_true, Bool.false_eq_true, ↓reduceIte] at h
+    split at h
+    · rename_i u hu
+      simp only [Except.ok.injEq] at h
+      subst h
+      exact ⟨hs, rfl, hu⟩
+    · simp at h
+  · simp [hs, err] at h
+
+theorem signBundle_ok {ext : Externals} {mods : List P11Module} {cfg : SignerConfig} {slot : Nat}
+    {bundle rb : Bundle} {t : Token} {s s' : TokState}
+    (h : signBundle ext mods cfg slot bundle t s = (.ok rb, s')) :
+    ∃ act pub rev revoked signing s1 s2 s3,
+      cfg.actions.lookup slot = some act ∧
+      fetchKeys ext mods cfg bundle true act.publish t s = (.ok pub, s1) ∧
+      fetchKeys ext mods cfg bundle true act.revoke t s1 = (.ok rev, s2) ∧
+      rev.mapM (fun ck => ck.dns.asRevoked) = .ok revoked ∧
+      fetchKeys ext mods cfg bundle false act.sign t s2 = (.ok signing, s3) ∧
+      rb.keys = slotFold cfg.kskPolicy.ttl (pub.map (·.dns)) revoked (signing.map (·.dns)) bundle.keys ∧
+      signAll ext bundle rb.keys cfg.kskPolicy signing [] t s3 = (.ok rb.signatures, s') ∧
+      finishBundle ext cfg bundle rb.keys rb.signatures = .ok rb := by
+  cases hact : cfg.actions.lookup slot with
+  | none => simp [signBundle, hact] at h
+  | some act =>
+    rw [signBundle_eq ext mods cfg slot bundle act hact] at h
+    obtain ⟨pub, s1, hpub, h⟩ := TokM.bind_ok _ _ _ _ _ _ h
+    obtain ⟨rev, s2, hrev, h⟩ := TokM.bind_ok _ _ _ _ _ _ h
+    obtain ⟨revoked, hrevoked, h⟩ := (TokM.lift_bind_ok_iff _ _ _ _ _ _).mp h
+    obtain ⟨signing, s3, hsign, h⟩ := TokM.bind_ok _ _ _ _ _ _ h
+    obtain ⟨sigs, s4, hsigs, h⟩ := TokM.bind_ok _ _ _ _ _ _ h
+    simp only [TokM.lift_run, Prod.mk.injEq] at h
+    obtain ⟨hfin, rfl⟩ := h
+    obtain ⟨_, hrb, _⟩ := finishBundle_ok hfin
+    have hk : rb.keys = slotFold cfg.kskPolicy.ttl (pub.map (·.dns)) revoked (signing.map (·.dns)) bundle.keys := by
+      rw [hrb]
+    have hsg : rb.signatures = sigs := by rw [hrb]
+    refine ⟨act, pub, rev, revoked, signing, s1, s2, s3, rfl, hpub, hrev, hrevoked, hsign, hk, ?_, ?_⟩
+    · rw [hk, hsg]; exact hsigs
+    · rw [hk, hsg]; exact hfin
+
+/-- forward form: once the fetches and the signing loop have answered, the outcome is `finishBundle` -/
+theorem signBundle_run {ext : Externals} {mods : List P11Module} {cfg : SignerConfig} {slot : Nat}
+    {bundle : Bundle} {t : Token} {s s1 s2 s3 s4 : TokState} {act : SchemaAction}
+    {pub rev signing : List CompositeKey} {revoked : List Key} {sigs : List Signature}
+    (hact : cfg.actions.lookup slot = some act)
+    (hpub : fetchKeys ext mods cfg bundle true act.publish t s = (.ok pub, s1))
+    (hrev : fetchKeys ext mods cfg bundle true act.revoke t s1 = (.ok rev, s2))
+    (hrevoked : rev.mapM (fun ck => ck.dns.asRevoked) = .ok revoked)
+    (hsign : fetchKeys ext mods cfg bundle false act.sign t s2 = (.ok signing, s3))
+    (hsigs : signAll ext bundle
+      (slotFold cfg.kskPolicy.ttl (pub.map (·.dns)) revoked (signing.map (·.dns)) bundle.keys)
+      cfg.kskPolicy signing [] t s3 = (.ok sigs, s4)) :
+    signBundle ext mods cfg slot bundle t s =
+      (finishBundle ext cfg bundle
+        (slotFold cfg.kskPolicy.ttl (pub.map (·.dns)) revoked (signing.map (·.dns)) bundle.keys) sigs, s4) := by
+  rw [signBundle_eq ext mods cfg slot bundle act hact]
+  simp only [TokM.bind_eq, hpub, hrev, hrevoked, hsign, hsigs, TokM.lift_run]
+
+/-! ### all slots -/
+
+theorem signBundlesFrom_nil (ext : Externals) (mods : List P11Module) (cfg : SignerConfig) (n : Nat) :
+    signBundlesFrom ext mods cfg n [] = pure [] := by
+  simp [signBundlesFrom]
+
+theorem signBundlesFrom_cons (ext : Externals) (mods : List P11Module) (cfg : SignerConfig) (n : Nat)
+    (b : Bundle) (rest : List Bundle) :
+    signBundlesFrom ext mods cfg n (b :: rest) =
+      signBundle ext mods cfg n b >>= fun rb =>
+      signBundlesFrom ext mods cfg (n + 1) rest >>= fun more => pure (rb :: more) := by
+  rw [signBundlesFrom]
+
+/-- positions: the `i`-th response bundle is the result of `signBundle` for slot `n + i` on the
+    `i`-th request bundle, for every list length and every starting counter -/
+theorem signBundlesFrom_ok {ext : Externals} {mods : List P11Module} {cfg : SignerConfig} {n : Nat}
+    {bs rbs : List Bundle} {t : Token} {s s' : TokState}
+    (h : signBundlesFrom ext mods cfg n bs t s = (.ok rbs, s')) :
+    rbs.length = bs.length ∧
+    ∀ i b, bs[i]? = some b → ∃ rb s1 s2, rbs[i]? = some rb ∧
+      signBundle ext mods cfg (n + i) b t s1 = (.ok rb, s2) := by
+  induction bs generalizing n rbs s with
+  | nil =>
+    simp [signBundlesFrom_nil] at h
+    obtain ⟨rfl, _⟩ := h
+    simp
+  | cons b rest ih =>
+    rw [signBundlesFrom_cons] at h
+    obtain ⟨rb, s1, hrb, h⟩ := TokM.bind_ok _ _ _ _ _ _ h
+    obtain ⟨more, s2, hmore, h⟩ := TokM.bind_ok _ _ _ _ _ _ h
+    simp only [TokM.pure_run, Prod.mk.injEq, Except.ok.injEq] at h
+    obtain ⟨rfl, rfl⟩ := h
+    obtain ⟨ih1, ih2⟩ := ih hmore
+    refine ⟨by simp [ih1], ?_⟩
+    intro i b' hb'
+    cases i with
+    | zero =>
+      simp only [List.getElem?_cons_zero, Option.some.injEq] at hb'
+      subst hb'
+      exact ⟨rb, s, s1, by simp, hrb⟩
+    | succ j =>
+      simp only [List.getElem?_cons_succ] at hb'
+      obtain ⟨rb', sa, sb, h1, h2⟩ := ih2 j b' hb'
+      refine ⟨rb', sa, sb, by simpa using h1, ?_⟩
+      have : n + (j + 1) = n + 1 + j := by omega
+      rw [this]; exact h2
+
+/-! ### `create_skr` -/
+
+theorem mapM_ok_mem {α β} (f : α → Res β) (l : List α) (r : List β) (h : l.mapM f = .ok r) :
+    (∀ b, b ∈ r ↔ ∃ a ∈ l, f a = .ok b) ∧ r.length = l.length ∧ (∀ a ∈ l, ∃ b, f a = .ok b) := by
+  induction l generalizing r with
+  | nil =>
+    simp [pure, Except.pure] at h
+    subst h; simp
+  | cons a l ih =>
+    rw [List.mapM_cons] at h
+    cases hfa : f a with
+    | error e => simp [hfa, bind, Except.bind] at h
+    | ok b0 =>
+      cases hl : l.mapM f with
+      | error e => simp [hfa, hl, bind, Except.bind] at h
+      | ok r0 =>
+        simp only [hfa, hl, bind, Except.bind, pure, Except.pure, Except.ok.injEq] at h
+        subst h
+        obtain ⟨ih1, ih2, ih3⟩ := ih r0 hl
+        refine ⟨?_, by simp [ih2], ?_⟩
+        rotate_left
+        · intro a' ha'
+          rcases List.mem_cons.mp ha' with rfl | ha'
+          · exact ⟨b0, hfa⟩
+          · exact ih3 a' ha'
+        intro b
+        simp only [List.mem_cons, ih1 b, exists_eq_or_imp, hfa, Except.ok.injEq]
+        constructor
+        · rintro (rfl | h)
+          · exact Or.inl rfl
+          · exact Or.inr h
+        · rintro (rfl | h)
+          · exact Or.inl rfl
+          · exact Or.inr h
+
+theorem dedupFold_mem {α} [BEq α] [LawfulBEq α] (l acc : List α) (x : α) :
+    x ∈ l.foldl (fun acc a => if acc.contains a then acc else acc ++ [a]) acc ↔ x ∈ acc ∨ x ∈ l := by
+  induction l generalizing acc with
+  | nil => simp
+  | cons a l ih =>
+    rw [List.foldl_cons, ih]
+    by_cases hc : acc.contains a = true
+    · simp only [hc, ↓reduceIte, List.mem_cons]
+      have : a ∈ acc := List.contains_iff_mem.mp hc
+      constructor
+      · rintro (h | h)
+        · exact Or.inl h
+        · exact Or.inr (Or.inr h)
+      · rintro (h | rfl | h)
+        · exact Or.inl h
+        · exact Or.inl this
+        · exact Or.inr h
+    · simp only [hc, Bool.false_eq_true, ↓reduceIte, List.mem_append, List.mem_cons, List.not_mem_nil, or_false]
+      constructor
+      · rintro ((h | h) | h)
+        · exact Or.inl h
+        · exact Or.inr (Or.inl h)
+        · exact Or.inr (Or.inr h)
+      · rintro (h | h | h)
+        · exact Or.inl (Or.inl h)
+        · exact Or.inl (Or.inr h)
+        · exact Or.inr h
+
+theorem dedupFold_nodup {α} [BEq α] [LawfulBEq α] (l acc : List α) (h : acc.Nodup) :
+    (l.foldl (fun acc a => if acc.contains a then acc else acc ++ [a]) acc).Nodup := by
+  induction l generalizing acc with
+  | nil => exact h
+  | cons a l ih =>
+    rw [List.foldl_cons]
+    apply ih
+    by_cases hc : acc.contains a = true
+    · simp only [hc, ↓reduceIte]; exact h
+    · simp only [hc, Bool.false_eq_true, ↓reduceIte]
+      have : a ∉ acc := fun hm => hc (List.contains_iff_mem.mpr hm)
+      rw [List.nodup_append]
+      refine ⟨h, by simp, ?_⟩
+      intro x hx y hy
+      simp only [List.mem_singleton] at hy
+      subst hy
+      intro e; subst e; exact this hx
+
+theorem kskSignaturePolicy_ok {pol : KskPolicy} {bundles : List Bundle} {sp : SigPolicy}
+    (h : kskSignaturePolicy pol bundles = .ok sp) :
+    sp.publishSafety = pol.signaturePolicy.publishSafety ∧
+    sp.retireSafety = pol.signaturePolicy.retireSafety ∧
+    sp.maxSignatureValidity = pol.signaturePolicy.maxSignatureValidity ∧
+    sp.minSignatureValidity = pol.signaturePolicy.minSignatureValidity ∧
+    sp.maxValidityOverlap = pol.signaturePolicy.maxValidityOverlap ∧
+    sp.minValidityOverlap = pol.signaturePolicy.minValidityOverlap ∧
+    (∀ a, a ∈ sp.algorithms ↔ ∃ b ∈ bundles, ∃ k ∈ b.keys, algorithmPolicyOfKey k = .ok a) ∧
+    sp.algorithms.Nodup ∧
+    (∀ b ∈ bundles, ∀ k ∈ b.keys, ∃ a, algorithmPolicyOfKey k = .ok a) := by
+  unfold kskSignaturePolicy at h
+  cases hm : ((bundles.map (·.keys)).flatten).mapM algorithmPolicyOfKey with
+  | error e => simp [hm, bind, Except.bind] at h
+  | ok algs =>
+    simp only [hm, bind, Except.bind, pure, Except.pure, Except.ok.injEq] at h
+    subst h
+    obtain ⟨hmem, hlen, hall⟩ := mapM_ok_mem _ _ _ hm
+    refine ⟨rfl, rfl, rfl, rfl, rfl, rfl, ?_, ?_, ?_⟩
+    · intro a
+      simp only [dedupFold_mem, List.not_mem_nil, false_or, hmem a, List.mem_flatten, List.mem_map]
+      constructor
+      · rintro ⟨k, ⟨ks, ⟨b, hb, rfl⟩, hk⟩, ha⟩
+        exact ⟨b, hb, k, hk, ha⟩
+      · rintro ⟨b, hb, k, hk, ha⟩
+        exact ⟨k, ⟨b.keys, ⟨b, hb, rfl⟩, hk⟩, ha⟩
+    · exact dedupFold_nodup _ _ (by simp)
+    · intro b hb k hk
+      apply hall k
+      simp only [List.mem_flatten, List.mem_map]
+      exact ⟨b.keys, ⟨b, hb, rfl⟩, hk⟩
+
+/-! ### `make_raw_rrsig` -/
+
+theorem dndepth_ok {dn : String} {n : Int} (h : dndepth dn = .ok n) : dn = "." ∧ n = 0 := by
+  unfold dndepth at h
+  split at h
+  · simp only [pure, Except.pure, Except.ok.injEq] at h
+    exact ⟨by assumption, h.symm⟩
+  · simp [err] at h
+
+/-- `make_raw_rrsig` succeeding: every field in wire range, every RDATA decodable and short enough,
+    signer name the root, and the octets are `rawRrsigOf` of the fields over the RDATAs. -/
+theorem makeRawRrsig_ok {sig : Signature} {keys : List Key} {raw : Bytes}
+    (h : makeRawRrsig sig keys = .ok raw) :
+    ∃ rdatas, keys.mapM keyToRdata = .ok rdatas ∧ sig.signersName = "." ∧
+      sig.typeCovered < 65536 ∧ sig.algorithm < 256 ∧ inRange 8 sig.labels = true ∧
+      inRange 32 sig.originalTtl = true ∧ inRange 32 (tsSeconds sig.expiration) = true ∧
+      inRange 32 (tsSeconds sig.inception) = true ∧ inRange 16 sig.keyTag = true ∧
+      (∀ r ∈ rdatas, r.length < 65536) ∧
+      raw = rawRrsigOf sig.typeCovered sig.algorithm sig.labels.toNat sig.originalTtl.toNat
+        (tsSeconds sig.expiration).toNat (tsSeconds sig.inception).toNat sig.keyTag.toNat rdatas := by
+  unfold makeRawRrsig at h
+  simp only [bind, Except.bind] at h
+  split at h
+  · simp [err] at h
+  · rename_i hc
+    simp only [Bool.not_eq_true', Bool.not_eq_false, Bool.and_eq_true, decide_eq_true_eq] at hc
+    obtain ⟨⟨⟨⟨⟨⟨h1, h2⟩, h3⟩, h4⟩, h5⟩, h6⟩, h7⟩ := hc
+    cases hdn : dn2wire sig.signersName with
+    | error e => simp [hdn] at h
+    | ok w =>
+      have hroot : sig.signersName = "." := by
+        unfold dn2wire at hdn
+        split at hdn
+        · assumption
+        · simp [err] at hdn
+      cases hrd : keys.mapM keyToRdata with
+      | error e => simp [hdn, hrd] at h
+      | ok rdatas =>
+        simp only [hdn, hrd] at h
+        split at h
+        · simp [err] at h
+        · rename_i hlen
+          simp only [pure, Except.pure, Except.ok.injEq] at h
+          refine ⟨rdatas, rfl, hroot, h1, h2, h3, h4, h5, h6, h7, ?_, h.symm⟩
+          intro r hr
+          simp only [List.any_eq_true, decide_eq_true_eq, not_exists, not_and, Nat.not_le] at hlen
+          exact hlen r hr
+
+theorem makeRawRrsig_sigData (sig : Signature) (d : String) (keys : List Key) :
+    makeRawRrsig { sig with signatureData := d } keys = makeRawRrsig sig keys := rfl
+
 end Kskm
